@@ -3,8 +3,8 @@ from __future__ import annotations
 from classify_checks import *
 
 PID = "C02"
-THEOREMS = CLOSURE_THEOREMS
-IMPORTS = CLOSURE_IMPORTS
+THEOREMS = CLOSURE_THEOREMS + ["PauLie.C02.C02_shape_checker"]
+IMPORTS = CLOSURE_IMPORTS + ["PauLieVerif.Properties.C02Shape"]
 
 def batch_oracle(lines, outs):
     colls = [inputs_of(l) for l in lines]
